@@ -23,21 +23,41 @@ Theorem C12_only_pristine : forall (H : bytes -> bytes) pre f now b rs b',
 Proof. intros H pre f now b rs b'. apply import_only_pristine. Qed.
 Print Assumptions C12_only_pristine.
 
+(* THE ROW DECIDES: Import re-reads _system.ledgers.state under the ledger lock; whatever the facade the request goes
+   through had cached (a facade built by GetLedgerController before another request's first write still holds
+   `initializing`), an in-use row refuses the import and nothing but that cache changes *)
+Theorem C12_row_decides : forall (H : bytes -> bytes) pre f now b cached rs,
+  i_l b = InUse -> imp_import H pre f now (with_cache b cached) rs = (with_cache b InUse, Some IENotInitializing).
+Proof. intros H pre f now b cached rs. apply import_row_decides. Qed.
+Print Assumptions C12_row_decides.
+
+(* the cache never runs ahead of the row: true initially and kept by every request (hypothesis [coherent] below) *)
+Theorem C12_coherent : forall (H : bytes -> bytes) pre f now,
+  coherent i_init /\
+  (forall b o, coherent b -> coherent (fst (w_single H pre f now b o))) /\
+  (forall b os, coherent b -> coherent (fst (w_atomic H pre f now b os))) /\
+  (forall b rs, coherent (fst (imp_import H pre f now b rs))).
+Proof.
+  intros H pre f now. split; [exact coherent_init|]. split; [intros b o; apply single_coherent|].
+  split; [intros b os; apply atomic_coherent | intros b rs; apply import_coherent].
+Qed.
+Print Assumptions C12_coherent.
+
 (* once a write was accepted through the facade (single request; an element of a non-atomic bulk is one), no import can
    change the ledger: it is refused with "not in initializing state" and the ledger is untouched *)
 Theorem C12_after_write_rejected : forall (H : bytes -> bytes) pre f now b o b' r now' rs,
-  w_single H pre f now b o = (b', Some r) -> committed o r = true ->
-  imp_import H pre f now' b' rs = (b', Some IENotInitializing).
+  coherent b -> w_single H pre f now b o = (b', Some r) -> committed o r = true ->
+  forall cached, imp_import H pre f now' (with_cache b' cached) rs = (with_cache b' InUse, Some IENotInitializing).
 Proof.
-  intros H pre f now b o b' r now' rs E C. apply import_in_use. eapply single_commit_in_use; eassumption.
+  intros H pre f now b o b' r now' rs Co E C cached. apply import_row_decides. eapply single_commit_in_use; eassumption.
 Qed.
 Print Assumptions C12_after_write_rejected.
 
 (* the same after a non-atomic bulk in which at least one element was accepted (each element is a facade write) *)
 Theorem C12_after_bulk_write_rejected : forall (H : bytes -> bytes) pre f now b os b' rs now' rs',
-  Forall (fun o => o_dry o = false) os -> w_bulk H pre f now b os = (b', rs) ->
+  coherent b -> Forall (fun o => o_dry o = false) os -> w_bulk H pre f now b os = (b', rs) ->
   (exists lid tid hit, In (BRes (Some (ROk lid tid hit))) rs) ->
-  imp_import H pre f now' b' rs' = (b', Some IENotInitializing).
+  imp_import H pre f now' b' rs' = (with_cache b' InUse, Some IENotInitializing).
 Proof. intros H pre f now b os b' rs now' rs'. apply bulk_commit_then_import_rejected. Qed.
 Print Assumptions C12_after_bulk_write_rejected.
 
@@ -47,13 +67,13 @@ Theorem C12_monotone : forall (H : bytes -> bytes) pre f now b,
   (forall o, i_l (fst (w_single H pre f now b o)) = InUse) /\
   (forall os, i_l (fst (w_bulk H pre f now b os)) = InUse) /\
   (forall os, i_l (fst (w_atomic H pre f now b os)) = InUse) /\
-  (forall rs, imp_import H pre f now b rs = (b, Some IENotInitializing)).
+  (forall rs cached, imp_import H pre f now (with_cache b cached) rs = (with_cache b InUse, Some IENotInitializing)).
 Proof.
   intros H pre f now b E. repeat split.
   - intros o. apply single_keeps_in_use. exact E.
   - intros os. apply bulk_keeps_in_use. exact E.
   - intros os. apply atomic_keeps_in_use. exact E.
-  - intros rs. apply import_in_use. exact E.
+  - intros rs cached. apply import_row_decides. exact E.
 Qed.
 Print Assumptions C12_monotone.
 
@@ -65,17 +85,17 @@ Print Assumptions C12_import_keeps_state.
 (* ATOMIC bulk, since the repair fixes/01-facade-begintx: it either commits, and then the ledger is in-use, or it has no
    effect at all; so after an atomic bulk that changed anything every import is refused without effect *)
 Theorem C12_atomic_flips_or_no_effect : forall (H : bytes -> bytes) pre f now b os b' out,
-  w_atomic H pre f now b os = (b', out) ->
+  coherent b -> w_atomic H pre f now b os = (b', out) ->
   i_l b' = InUse \/ (i_l b' = i_l b /\ tables (i_s b') = tables (i_s b) /\ i_tab b' = i_tab b).
 Proof. intros H pre f now b os b' out. apply atomic_flips_or_no_effect. Qed.
 Print Assumptions C12_atomic_flips_or_no_effect.
 
 Theorem C12_after_atomic_write_rejected : forall (H : bytes -> bytes) pre f now b os b' out now' rs,
-  w_atomic H pre f now b os = (b', out) -> tables (i_s b') <> tables (i_s b) ->
-  imp_import H pre f now' b' rs = (b', Some IENotInitializing).
+  coherent b -> w_atomic H pre f now b os = (b', out) -> tables (i_s b') <> tables (i_s b) ->
+  forall cached, imp_import H pre f now' (with_cache b' cached) rs = (with_cache b' InUse, Some IENotInitializing).
 Proof.
-  intros H pre f now b os b' out now' rs E Hne. apply import_in_use.
-  destruct (atomic_flips_or_no_effect H pre f now b os b' out E) as [I|(_ & T & _)]; [exact I | contradiction].
+  intros H pre f now b os b' out now' rs Co E Hne cached. apply import_row_decides.
+  destruct (atomic_flips_or_no_effect H pre f now b os b' out Co E) as [I|(_ & T & _)]; [exact I | contradiction].
 Qed.
 Print Assumptions C12_after_atomic_write_rejected.
 
